@@ -83,8 +83,14 @@ def check_pair(run, model, rng, good, junk, plugins, bits, i):
             with dirgen.TempDir(good) as d1:
                 r1 = run_modes(d1, modes, tmp + "/a")
             subdirs = ["archive"] if rng.random() < 0.5 else []
+            real = {}
             with dirgen.TempDir(good + junk + junk_la, subdirs=subdirs) as d2:
                 r2 = run_modes(d2, [m for m in modes if m[0] != "-n"], tmp + "/b")
+                if i % 12 == 0 or any("_uni_" in f[0] for f in good):
+                    # the same through a real process: what reaches a real standard output (its encoding included)
+                    for key, argv in modes:
+                        if key in ("-a", "-l"):
+                            real[key] = cli_runner.run_subproc(["-p", d2] + argv)
             with dirgen.TempDir(good + junk, subdirs=subdirs) as d3:
                 r2.update(run_modes(d3, [m for m in modes if m[0] == "-n"], tmp + "/c"))
             junk_la_only = list(junk_la)
@@ -97,6 +103,11 @@ def check_pair(run, model, rng, good, junk, plugins, bits, i):
         run.count("junk:%d" % len(junk))
         rp = dict(fn="junk", good=[[f[0], f[1].hex()] for f in good], junk=[[f[0], f[1].hex()] for f in junk], subdirs=subdirs,
                   plugins=plugins, bits=bits, unreadable=[f[0] for f in junk if f[2].get("kind") == "unreadable"])
+        for key, (rcr, outr, errr) in real.items():
+            run.count("real-process:" + key)
+            if rcr != 0 or outr != r2[key][1]:
+                run.violation("stdout-real-process:" + key, "peltool %s as a real process: exit status %r, standard output differs from what the mode produces in-process" % (key, rcr),
+                              dict(rp, kind="S", mode=key, real_stdout=outr[-500:], inproc_stdout=r2[key][1][-500:], stderr=errr[-300:]))
         for key, argv in modes:
             rc1, out1, err1, files1 = r1[key]
             rc2, out2, err2, files2 = r2[key]
@@ -200,6 +211,12 @@ def run(run, model, proof):
             junk.append((b, j, dict(kind="junk")))
         if rng.random() < 0.3:
             junk.append((rng.choice(["0_gone_%d", "m_gone_%d.pel", "zz_gone_%d"]) % i, b"", dict(kind="unreadable")))
+        if rng.random() < 0.3:
+            # a good PEL whose document holds characters outside ASCII, a lone surrogate included (JSON user data): printing it
+            # must not disturb the framing of what is printed around it
+            body = ('{"Note": "%s"}' % rng.choice(["caf\u00e9", "\\ud83d", "\U0001f600", "\\udfff x"])).encode("utf-8")
+            ueid = 0x6A00 + i
+            good.append((rng.choice(["n_uni_%d", "zz_uni_%d", "0_uni_%d"]) % i, dirgen.set_ids(c04.mini_pel(b"O", [(b"UD", 1, 1, 0x2000, body)]), eid=ueid), dict(kind="pel", eid=ueid)))
         bits = rng.choice([1, 1, 0, rng.randrange(64)])
         check_pair(run, model, rng, good, junk, plugins, bits, i)
     if bad:
